@@ -101,6 +101,9 @@ type Cfg struct {
 	// ReuseIQ: the query callback hands out the same *IndexQuery value every time it is given
 	// the same query (an application keeping its prepared queries).
 	ReuseIQ bool `json:"reuseIQ,omitempty"`
+	// SlowListener: an OnChange listener registered on the store before the query store's
+	// own one yields (1) or sleeps 100us (2): change notification takes a while.
+	SlowListener int `json:"slowListener,omitempty"`
 }
 
 // Case is a sequential case.
@@ -234,6 +237,15 @@ func newMachine(cfg Cfg) (*machine, error) {
 	}
 	m := &machine{cfg: cfg, db: db, cleanup: cleanup}
 	m.st = badgerstore.NewStore(db).SetType(Rec{}).SetPrefix(cfg.Prefix)
+	if cfg.SlowListener > 0 {
+		m.st.OnChange(func(string, interface{}, interface{}) {
+			if cfg.SlowListener == 1 {
+				runtime.Gosched()
+			} else {
+				time.Sleep(100 * time.Microsecond)
+			}
+		})
+	}
 	m.qs = badgerstore.NewQueryStore(m.st, func(qs *badgerstore.QueryStore, q url.Values) (*badgerstore.IndexQuery, error) {
 		prefix, _ := hex.DecodeString(q.Get("prefix"))
 		off, _ := strconv.Atoi(q.Get("offset"))
